@@ -11,6 +11,21 @@ thread_local! {
     static BAD_TARGET: RefCell<bool> = RefCell::new(false);
     static BAD_AFTER_END: RefCell<bool> = RefCell::new(false);
     static LOG: RefCell<Vec<(usize, usize)>> = RefCell::new(vec![]);
+    static DETAIL: RefCell<Vec<(String, String, String, String, String, String, String)>> = RefCell::new(vec![]);
+}
+
+fn level_name(l: &metrics::Level) -> &'static str {
+    use metrics::Level;
+    if *l == Level::TRACE { "TRACE" } else if *l == Level::DEBUG { "DEBUG" } else if *l == Level::INFO { "INFO" } else if *l == Level::WARN { "WARN" } else { "ERROR" }
+}
+fn reg(op: &str, k: &Key, m: &Metadata<'_>) {
+    let labels = k.labels().map(|l| format!("{}={}", l.key(), l.value())).collect::<Vec<_>>().join(",");
+    let module_ok = m.module_path() == Some("mirharness");
+    DETAIL.with(|d| d.borrow_mut().push((op.to_string(), k.name().to_string(), labels, level_name(m.level()).to_string(),
+                                         if module_ok { m.target().to_string() } else { format!("{} (module_path {:?})", m.target(), m.module_path()) }, String::new(), String::new())));
+}
+fn desc(op: &str, k: &KeyName, u: &Option<Unit>, d: &SharedString) {
+    DETAIL.with(|x| x.borrow_mut().push((op.to_string(), k.as_str().to_string(), String::new(), String::new(), String::new(), u.as_ref().map(|u| u.as_str().to_string()).unwrap_or_default(), d.to_string())));
 }
 
 struct R(usize);
@@ -23,12 +38,12 @@ impl R {
     }
 }
 impl Recorder for R {
-    fn describe_counter(&self, _: KeyName, _: Option<Unit>, _: SharedString) { self.hit() }
-    fn describe_gauge(&self, _: KeyName, _: Option<Unit>, _: SharedString) { self.hit() }
-    fn describe_histogram(&self, _: KeyName, _: Option<Unit>, _: SharedString) { self.hit() }
-    fn register_counter(&self, _: &Key, _: &Metadata<'_>) -> Counter { self.hit(); Counter::noop() }
-    fn register_gauge(&self, _: &Key, _: &Metadata<'_>) -> Gauge { self.hit(); Gauge::noop() }
-    fn register_histogram(&self, _: &Key, _: &Metadata<'_>) -> Histogram { self.hit(); Histogram::noop() }
+    fn describe_counter(&self, k: KeyName, u: Option<Unit>, d: SharedString) { self.hit(); desc("describe_counter", &k, &u, &d) }
+    fn describe_gauge(&self, k: KeyName, u: Option<Unit>, d: SharedString) { self.hit(); desc("describe_gauge", &k, &u, &d) }
+    fn describe_histogram(&self, k: KeyName, u: Option<Unit>, d: SharedString) { self.hit(); desc("describe_histogram", &k, &u, &d) }
+    fn register_counter(&self, k: &Key, m: &Metadata<'_>) -> Counter { self.hit(); reg("register_counter", k, m); Counter::noop() }
+    fn register_gauge(&self, k: &Key, m: &Metadata<'_>) -> Gauge { self.hit(); reg("register_gauge", k, m); Gauge::noop() }
+    fn register_histogram(&self, k: &Key, m: &Metadata<'_>) -> Histogram { self.hit(); reg("register_histogram", k, m); Histogram::noop() }
 }
 static R1: R = R(1);
 static R2: R = R(2);
@@ -70,6 +85,8 @@ fn main() {
             "s_panic_in_scope" => mirharness::s_panic_in_scope(),
             "end_scope2" => mirharness::end_scope2(),
             "s_global" => mirharness::s_global(),
+            "m_forms" => mirharness::m_forms(),
+            "m_dynamic" => mirharness::m_dynamic(),
             _ => mirharness::emit(),
         });
         let _ = r;
@@ -85,6 +102,14 @@ fn main() {
         println!("global hits {}", g);
         if g != 3 || log.len() != 1 || log[0].0 != 1 { v.push("fallthrough_local_global_noop"); v.push("exactly_once"); }
     }
-    if !v.is_empty() { v.push("K_K1_guard_dropped_while_a_later_guard_is_alive"); v.push("K_K2_guard_leaked_with_mem_forget"); }
+    if calls.iter().any(|c| c == "m_forms") {
+        let got = DETAIL.with(|d| d.borrow().clone());
+        let want: Vec<_> = mirharness::FORMS.iter().map(|f| (f.0.to_string(), f.1.to_string(), f.2.to_string(), f.3.to_string(), f.4.to_string(), f.5.to_string(), f.6.to_string())).collect();
+        for (i, (g, w)) in got.iter().zip(want.iter()).enumerate() {
+            if g != w { println!("call site {}: delivered {:?}, spelled {:?}", i, g, w); }
+        }
+        if got != want || BAD_TARGET.with(|b| *b.borrow()) { println!("delivered {} calls, {} call sites", got.len(), want.len()); v.push("delivered_exactly_once_as_spelled"); }
+    }
+    if !v.is_empty() && !calls.iter().any(|c| c == "m_forms") { v.push("K_K1_guard_dropped_while_a_later_guard_is_alive"); v.push("K_K2_guard_leaked_with_mem_forget"); }
     finish(&v, &plan)
 }
